@@ -172,6 +172,25 @@ def c06_5(ctx, r):
             forms = {f for n in ctx.nodes_of(init, st) for f, p in guard_forms(ctx, init, n) if p}
             r.check(v in ("sys.maxsize",) and "<HpcSubmitter._max_nodes> is None" in forms, "unbounded only when max_nodes is None", key_of(init, f"_max_nodes = {v}"), init.loc(node),
                     f"_max_nodes is overridden with {v} under {sorted(forms)}")
+    # ... of a group taken from the cluster's persisted groups (resubmit-jobs -s replaces those, not config.json)
+    for node, st in stores:
+        if isinstance(st, ast.Assign) and render(ctx, init, st.value) == "<SubmitterParams.max_nodes>":
+            e = st.value
+            while isinstance(e, ast.Attribute):
+                e = e.value
+            src = None
+            if isinstance(e, ast.Name):
+                for n in ctx.nodes_of(init, st):
+                    ud = ctx.rd(init).unique_def(n, e.id)
+                    src = render(ctx, init, ud[1]) if ud and isinstance(ud[1], ast.AST) else None
+            else:
+                src = render(ctx, init, e)
+            r.check(src is not None and "<HpcSubmitter._submission_groups>" in src, "max_nodes is read from the cluster's persisted submission groups", key_of(init, "max_nodes group source"), init.loc(node),
+                    f"the group whose max_nodes bounds the queue is `{src}`, not one of self._submission_groups (built from cluster.config.submission_groups): after `resubmit-jobs -s` lowered max_nodes "
+                    "the submitter still uses the value stored in config.json and exceeds the limit", "at most max-nodes")
+    sg = [ctx.stmt_of(init, node) for f2, node, attr, t, kind in attr_stores(ctx, {"_submission_groups"}) if f2 is init]
+    oksg = len(sg) == 1 and isinstance(sg[0], ast.Assign) and isinstance(sg[0].value, ast.Call) and ctx.src(sg[0].value.func).endswith("make_submission_group_lookup") and render(ctx, init, sg[0].value.args[0]) == "<ClusterConfig.submission_groups>"
+    r.check(oksg, "_submission_groups = lookup over ClusterConfig.submission_groups", key_of(init, "_submission_groups source"), init.loc(), f"_submission_groups is built from {[ctx.src(x.value) for x in sg if isinstance(x, ast.Assign)]}")
     for f2, node, attr, t, kind in attr_stores(ctx, {"_max_nodes"}):
         r.check(f2 is init, f"_max_nodes written in {f2.short}", key_of(f2, "writes _max_nodes"), f2.loc(node), f"{f2.short} changes HpcSubmitter._max_nodes")
     # existing jobs <- cluster.iter_hpc_job_ids()
